@@ -233,6 +233,44 @@ Definition above_gap_ids (decls : list cdecl) (mro : nat -> list nat) (p : nat) 
 
 Definition zsubset (a b : list Z) : bool := forallb (fun x => zmem x b) a.
 
+(** D34: a class with invariants that only inherits a method (or property) puts the wrapper it makes around the inherited
+    function into *its own* namespace.  Below it, in a class with a further base that overrides the member - later in
+    the resolution order - attribute lookup finds that copy first: the override and its contracts are hidden. *)
+Definition declares_name (d : cdecl) (name : string) : bool :=
+  existsb (fun m => String.eqb (md_name m) name) (cd_members d).
+
+Definition holds_copy (decls : list cdecl) (mro : nat -> list nat) (q : nat) (name : string) : bool :=
+  match nth_error decls q with
+  | Some d =>
+      negb (declares_name d name)
+      && negb (str_in name ["__new__"; "__repr__"; "__getattribute__"; "__init__"])
+      && negb (String.eqb (substring 0 1 name) "_" && negb (is_dunder name))
+      && (let invs := flat_map (fun c => match nth_error decls c with
+                                         | Some dc => filter id_enabled (cd_invs dc)
+                                         | None => []
+                                         end) (mro q) in
+          if String.eqb name "__setattr__" then existsb (fun i => on_setattr (id_check_on i)) invs
+          else existsb (fun i => on_call (id_check_on i)) invs)
+  | None => false
+  end.
+
+(** the class below [k] whose namespace answers the lookup of [name] on [k]: the first one (after [k]) that declares the
+    member or holds a copy; [Some q] if it is a copy of another definition than the one the resolution order gives *)
+Definition shadowing_copy (decls : list cdecl) (mro : nat -> list nat) (k : nat) (name : string) (acc : mkind) : option nat :=
+  match find (fun q => match nth_error decls q with
+                       | Some d => declares_name d name || holds_copy decls mro q name
+                       | None => false
+                       end) (tl (mro k)) with
+  | Some q =>
+      if holds_copy decls mro q name
+      then match provider decls mro k name acc, provider decls mro q name acc with
+           | Some p, Some p' => if Nat.eqb p p' then None else Some q
+           | _, _ => None
+           end
+      else None
+  | None => None
+  end.
+
 (** compare the lists a member shows with the declarative effective contracts *)
 Definition check_member_view (decls : list cdecl) (mro : nat -> list nat) (k : nat) (name : string) (acc : mkind)
            (v : fview) : c04_verdict :=
@@ -276,7 +314,16 @@ Definition check_member_view (decls : list cdecl) (mro : nat -> list nat) (k : n
                    else V_bad)
         else if gset_eqb (fv_pre v) groups then V_ok else V_bad in
       match verdict with
-      | V_bad => if ident_class then V_known 1 else V_bad
+      | V_bad =>
+          if ident_class then V_known 1
+          else match (if Nat.eqb p k then None else shadowing_copy decls mro k name acc) with
+               | Some q =>
+                   (* what is shown is what the class holding the copy shows *)
+                   if zset_eqb (fv_post v) (declared_posts decls mro q name acc)
+                      && zset_eqb (fv_snaps v) (declared_snaps decls mro q name acc)
+                   then V_known 2 else V_bad
+               | None => V_bad
+               end
       | x => x
       end
   end.
@@ -315,7 +362,7 @@ Definition declared_invs (decls : list cdecl) (mro : nat -> list nat) (k : nat) 
                      end) (mro k).
 
 Definition verdict_code (v : c04_verdict) : Z :=
-  match v with V_ok => 0%Z | V_known 0 => 1%Z | V_known _ => 3%Z | V_bad => 2%Z end.
+  match v with V_ok => 0%Z | V_known 0 => 1%Z | V_known 1 => 3%Z | V_known _ => 4%Z | V_bad => 2%Z end.
 
 (** C04 / C18 on the final view of a history: 0 = as declared, 1 = only known-finding classes differ, 2 = violated *)
 Definition spec_C04_code_h (errs : list (option string)) (c : ecase) (w_model : world) (final : wview) : Z :=
@@ -417,7 +464,7 @@ Fixpoint dup_name_distinct_id (l : list (Z * string)) : bool :=
   | (i, n) :: r => existsb (fun p => String.eqb (snd p) n && negb (Z.eqb (fst p) i)) r || dup_name_distinct_id r
   end.
 
-Definition class_misuses (decls : list cdecl) (w_before : world) (d : cdecl) (mro_new : list nat) (meta : bool)
+Definition class_misuses (gap_aware : bool) (decls : list cdecl) (w_before : world) (d : cdecl) (mro_new : list nat) (meta : bool)
   : list string :=
   let k := List.length decls in                 (* index this class would get *)
   let decls' := decls ++ [d] in
@@ -429,7 +476,10 @@ Definition class_misuses (decls : list cdecl) (w_before : world) (d : cdecl) (mr
       then flat_map (fun m =>
                        if is_ctor (md_name m) then [] else
                        let acc := md_kind m in
-                       let above := filter (fun cm => negb (Nat.eqb (fst cm) k)) (definers decls' mro k (md_name m) acc) in
+                       (* [gap_aware]: what lies beyond a class that drops the accessor is not seen (finding D23) *)
+                       let hidden := if gap_aware then after_gap decls' mro (md_name m) acc (tl (mro k)) else [] in
+                       let above := filter (fun cm => negb (Nat.eqb (fst cm) k) && negb (nat_in (fst cm) hidden))
+                                           (definers decls' mro k (md_name m) acc) in
                        let provided := negb (is_nil above)
                                        || (is_dunder (md_name m)
                                            && match acc with MGet | MSet | MDel => false | _ => true end) in
@@ -457,7 +507,7 @@ Definition error_ok (misuses : list string) (err : option string) : bool :=
   end.
 
 (** walks the history with the model's world (for resolution orders of the classes defined so far) *)
-Fixpoint spec_errors (w : world) (decls : list cdecl) (ops : list defop) (h : list (option string * wview)) : bool :=
+Fixpoint spec_errors (gap_aware : bool) (w : world) (decls : list cdecl) (ops : list defop) (h : list (option string * wview)) : bool :=
   match ops, h with
   | [], [] => true
   | op :: rest, (err, _) :: hrest =>
@@ -467,7 +517,7 @@ Fixpoint spec_errors (w : world) (decls : list cdecl) (ops : list defop) (h : li
           | DefClass d =>
               let meta := cd_dbc d || existsb (fun b => match get_class w b with Some c => co_meta c | None => false end) (cd_bases d) in
               match compute_mro w (List.length (w_classes w)) (cd_bases d) with
-              | Some mro => error_ok (class_misuses decls w d mro meta) err
+              | Some mro => error_ok (class_misuses gap_aware decls w d mro meta) err
               | None => match err with Some _ => true | None => false end     (* inconsistent hierarchy: Python's TypeError *)
               end
           | DefRedecorate _ _ _ => true         (* the decorations generated are valid ones; nothing is claimed about their errors *)
@@ -478,12 +528,18 @@ Fixpoint spec_errors (w : world) (decls : list cdecl) (ops : list defop) (h : li
                     | DefRedecorate k name dc => update_nth decls k (fun d => redecorate_decl d name dc)
                     | DefFunction _ => decls
                     end in
-      ok && spec_errors w' decls' rest hrest
+      ok && spec_errors gap_aware w' decls' rest hrest
   | _, _ => false
   end.
 
 Definition spec_C19_defs (c : ecase) (h : list (option string * wview)) : bool :=
-  spec_errors empty_world [] (e_ops c) h.
+  spec_errors false empty_world [] (e_ops c) h.
+
+(** 0 = as specified; 3 = only the recorded finding D23 (a precondition added below a class that drops the accessor is
+    not rejected although an ancestor beyond it declares none); 2 = violated *)
+Definition spec_C19_defs_code (c : ecase) (h : list (option string * wview)) : Z :=
+  if spec_errors false empty_world [] (e_ops c) h then 0%Z
+  else if spec_errors true empty_world [] (e_ops c) h then 3%Z else 2%Z.
 
 (** ** C18: every class created through the metaclass is announced exactly once, in creation order *)
 Definition spec_C18_registered (c : ecase) (wm : world) (h : list (option string * wview)) : bool :=
@@ -636,7 +692,11 @@ Definition spec_C14_kinds (c : ecase) (wm : world) (h : list (option string * wv
       forallb (fun kc =>
                  let k := fst kc in
                  if negb (is_live wm k) then true else
-                 forallb (fun nm => shape_ok (fst nm) (declared_shape decls (mro_of wm k) (fst nm)) (snd nm))
+                 forallb (fun nm => shape_ok (fst nm) (declared_shape decls (mro_of wm k) (fst nm)) (snd nm)
+                                    (* D34: the copy a class below holds of another definition (spec_C04 reports it) *)
+                                    || existsb (fun acc => match shadowing_copy decls (fun j => mro_of wm j) k (fst nm) acc with
+                                                           | Some _ => true | None => false end)
+                                               [MPlain; MGet; MSet; MDel])
                          (combine (e_names c) (cv_members (snd kc))))
               (combine (seq 0 (List.length (wv_classes final))) (wv_classes final))
   end.
